@@ -278,6 +278,7 @@ structure Mod where
   items : List Item
   imports : List (Name × List Name)     -- per file: identifiers of its `use` trees
   mentions : List (Name × List Name)    -- per file: capitalised single-segment type names mentioned
+  constMentions : List (Name × List Name) := []   -- per file: bare SCREAMING_SNAKE identifiers in expression position
 deriving Repr, Inhabited
 
 inductive Viol
@@ -299,6 +300,7 @@ inductive Viol
   | serverDurationHeader (item : Name)
   | aliasCycle (item : Name)
   | missingImport (name : Name)
+  | undefinedConst (name : Name)
   | headerParseNoFromStr (item target : Name)
   | ctorBoxMismatch (item variant : Name)
 deriving DecidableEq, Repr
@@ -365,6 +367,12 @@ def nameViols (m : Mod) : List Viol :=
       else if file != "types".toList && !m.schemas.contains n then []
       else [Viol.undefinedType n]).eraseDups
 
+/-- every constant named in an expression is defined by a `const` / `static` item of the module (the files of a module
+import each other's items with `use super::types::*`) -/
+def constViols (m : Mod) : List Viol :=
+  let defined := (m.items.filter fun i => i.kind == "const".toList || i.kind == "static".toList).map (·.name)
+  ((m.constMentions.flatMap (·.2)).filter fun n => !defined.contains n).eraseDups.map Viol.undefinedConst
+
 def validateViols (m : Mod) : List Viol :=
   m.types.flatMap fun it => it.fields.flatMap fun fd =>
     (if fd.nested then fd.refs.flatMap fun r => if !r.map && !r.arr && !capable m (·.val) 4 r.to then [Viol.nestedNoValidate it.name r.to] else [] else []) ++
@@ -417,7 +425,7 @@ def shapeViols (m : Mod) : List Viol :=
       !((m.imports.filter (·.1 == "types".toList)).flatMap (·.2)).contains d)).map Viol.missingImport
 
 /-- the well-formedness judgement: the list of violated closure obligations (empty = well-formed) -/
-def violations (m : Mod) : List Viol := nameViols m ++ serdeViols m ++ bodyViols m ++ validateViols m ++ shapeViols m
+def violations (m : Mod) : List Viol := nameViols m ++ serdeViols m ++ bodyViols m ++ validateViols m ++ shapeViols m ++ constViols m
 
 def WF (m : Mod) : Bool := (violations m).isEmpty
 
@@ -492,6 +500,7 @@ def explains : Viol → RErr → Bool
   | .serverDurationHeader it, e => e.ikind == "impl".toList && e.iname == it && e.name == "TimeDelta".toList && codeIn e.code ["E0277"]
   | .aliasCycle it, e => e.ikind == "type".toList && e.iname == it && codeIn e.code ["E0391"]
   | .missingImport n, e => codeIn e.code ["E0404", "E0405", "E0432", "cannot find derive macro"] && e.name == n
+  | .undefinedConst n, e => codeIn e.code ["E0425"] && e.name == n
   | .headerParseNoFromStr it tgt, e => e.ikind == "impl".toList && e.iname == it && e.name == tgt && codeIn e.code ["E0277"]
   | .ctorBoxMismatch it _, e => e.ikind == "impl".toList && e.iname == it && codeIn e.code ["E0308"]
 
